@@ -205,8 +205,63 @@ func runC11(c *Ctx) {
 			}
 		}
 	}
+	// Repair and Control on a *live* handle: with asynchronous writes some objects are accepted
+	// but not yet on disk; Repair on the healthy collection must lose nothing and change nothing
+	liveAlphabet := []Op{{Op: "ins", V: 1, K: 0}, {Op: "ins", V: 2, K: 2}, {Op: "upd", Slot: 0, V: 3, K: 3}, {Op: "del", Slot: 0}, {Op: "tick"}, {Op: "many", Batch: []Mem{{Kind: "fresh", V: 2, K: 3}, {Kind: "fresh", V: 3, K: 4}}}}
+	liveDepth := 3
+	if c.Tier == "thorough" {
+		liveDepth = 4
+	}
+	for _, cfg := range []Cfg{{Async: 1}, {Async: 2, Cache: true}, {Async: 1, Lower: true, Compress: true}, {Cache: true}} {
+		for _, hist := range enumPaths(liveAlphabet, liveDepth) {
+			item++
+			if item%c.NShards != c.Shard {
+				continue
+			}
+			cfg, hist := cfg, hist
+			applicable := true
+			res := RunPath(cfg, "C11", nil, func(w *World) {
+				for _, op := range hist {
+					if !w.Applicable(op) || (op.Op == "tick" && cfg.Async == 0) {
+						applicable = false
+						return
+					}
+					w.Apply(op)
+				}
+				if len(w.Viol) > 0 {
+					return
+				}
+				before := w.Observe(ObsOpt{Ordered: true}, nil)
+				w.Apply(Op{Op: "repair"})
+				if err := w.DB.Control(); err != nil && cfg.Async == 0 {
+					w.fail("control-after-repair|live", "Control fails after Repair on a healthy live handle: "+err.Error())
+				}
+				if after := w.Observe(ObsOpt{Ordered: true}, nil); after != before {
+					w.fail("repair-changed-reads|live|"+diffKind(before, after), "Repair on a healthy live handle changed what reads return:\n"+firstDiff(before, after))
+				}
+				w.SweepBasic()
+				w.Apply(Op{Op: "reopen"})
+				w.SweepBasic()
+				if err := w.DB.Control(); err != nil {
+					w.fail("control-after-repair|reopened", "after Repair on a live handle, Close and Open, Control fails: "+err.Error())
+				}
+			})
+			if !applicable {
+				continue
+			}
+			c.Count("evaluations", 1)
+			c.Count("transitions", 1)
+			c.Count("paths_replayed", 1)
+			key := "live|" + cfg.String() + jsonOf(hist)
+			c.Distinct("states", key)
+			c.Distinct("distinct_nontrivial", key)
+			for _, v := range res.W.Viol {
+				c.Violation(v)
+			}
+		}
+	}
 	c.Meta(map[string]interface{}{
-		"rule":    "for every base database (histories listed in evidence; closed, so async writes are on disk) and configuration: every assignment of {intact, file removed, index entry removed from object-ids and every field index by editing schema.json as JSON, both} to each stored object x {0,1,2} extra well-formed object files with fresh ids x {schema present, removed} (4^n*6 cases per base, exhaustive). Oracle: first load / Control report corruption iff indexed ids != file ids (no false positive on the healthy case); after (Create if needed and) Repair: Control = nil, index agrees with files decoded without sod code through every indexed field, every object file byte-identical (none modified, none deleted). Non-trivial = cases with at least one fault.",
+		"rule":    "(live handles: every history of depth <= 3 (thorough 4) over 6 letters incl. the virtual-time tick, under 3 asynchronous and 1 cached configuration, then Repair on the live handle holding pending writes: nothing lost, reads unchanged, Control quiet after Close and Open.) for every base database (histories listed in evidence; closed, so async writes are on disk) and configuration: every assignment of {intact, file removed, index entry removed from object-ids and every field index by editing schema.json as JSON, both} to each stored object x {0,1,2} extra well-formed object files with fresh ids x {schema present, removed} (4^n*6 cases per base, exhaustive). Oracle: first load / Control report corruption iff indexed ids != file ids (no false positive on the healthy case); after (Create if needed and) Repair: Control = nil, index agrees with files decoded without sod code through every indexed field, every object file byte-identical (none modified, none deleted). Non-trivial = cases with at least one fault.",
 		"configs": cfgs, "bases": len(bases),
 	})
 }
